@@ -318,7 +318,11 @@ def fixed_programs():
     # documents, and the same with the attribute inside a bundle
     vals = [["qn", "ex", EXU, "a"], ["qn", "ex2", EXU, "a"], ["id", EXU + "a"], ["str", EXU + "a"], ["str", "ex:a"],
             ["lit", "ex:a", "none", ["some", "en"]], ["int", "1"], ["str", "1"], ["bool", "true"], ["str", "True"],
-            ["lit", EXU + "a", ["qn", "ex", EXU, "T"], "none"]]
+            ["lit", EXU + "a", ["qn", "ex", EXU, "T"], "none"],
+            # a language tag together with an explicit datatype: the tag wins, the value IS the language-tagged "ex:a"
+            ["lit", "ex:a", ["qn", "xsd", "http://www.w3.org/2001/XMLSchema#", "string"], ["some", "en"]],
+            ["lit", "ex:a", ["qn", "ex", EXU, "T"], ["some", "en"]],
+            ["lit", "ex:a", ["qn", "prov", PROVU, "InternationalizedString"], ["some", "en"]]]
     for in_bundle in (False, True):
         p = []
         for i, v in enumerate(vals):
